@@ -97,7 +97,7 @@ class C05(flatcheck.FlatCheck):
         note="Trusted: Lean kernel, Model/Core.lean (_process, remove_model) tied by trace equality, acceptor Model/Spec/C05.lean, visibility marker (first finalize callback). Hierarchical machines share Machine._process; their queue behaviour is exercised by the nested correspondence.",
         technique="Lean 4 proof (simulation with an abstract queue) + differential correspondence + verified trace monitor")
     level = 'proof'
-    theorems = ('TM.C05_top_trigger', 'TM.C05_queued_history')
+    theorems = ('TM.C05_top_trigger', 'TM.C05_queued_history', 'TM.C05_unqueued_nested_immediate')
     streams = (
         flatcheck.Stream('queued', knobs_q, monitor=monitor, prepare=add_marker, nontrivial=nontrivial,
                          quick=(16, 300), thorough=(64, 2000)),
